@@ -673,4 +673,53 @@ theorem src_assembly_is_model (c : Cfg) (traj : SV (List ℝ)) (lto : SV (TM ℝ
 example : Kern.traj_emissions [2, 3, 5, 7] [0, 10, 20, 30] 1 3 = ([0, 30, 100, 0] : List ℝ) := by
   simp [Kern.traj_emissions, Vec.zeroPrefix, Vec.zeroFrom, lit_real]; norm_num
 
+/-! ## Source tie for the LTO part: `get_LTO_emissions` of `emissions/lto.py` regenerated (`Aeic.Kern.lto_*`: `ThrustModeValues`
+    arithmetic read mode by mode, the two loops over the species of `lto_indices` read for one generic species) -/
+
+/-- every LTO amount of the source is its (returned) index times the (returned) LTO fuel of that thrust mode — in both accounting
+    modes, for every index vector and every performance model -/
+theorem src_lto_amount_eq_index_times_fuel (A : String → ℝ) (i a c t : ℝ) (b : Bool) :
+    Kern.lto_emission_IDLE A i a c t b = Kern.lto_index_IDLE i a c t b * Kern.lto_fuel_IDLE A i a c t b ∧
+    Kern.lto_emission_APPROACH A i a c t b = Kern.lto_index_APPROACH i a c t b * Kern.lto_fuel_APPROACH A i a c t b ∧
+    Kern.lto_emission_CLIMB A i a c t b = Kern.lto_index_CLIMB i a c t b * Kern.lto_fuel_CLIMB A i a c t b ∧
+    Kern.lto_emission_TAKEOFF A i a c t b = Kern.lto_index_TAKEOFF i a c t b * Kern.lto_fuel_TAKEOFF A i a c t b := by
+  refine ⟨?_, ?_, ?_, ?_⟩ <;>
+    (simp only [Kern.lto_emission_IDLE, Kern.lto_emission_APPROACH, Kern.lto_emission_CLIMB, Kern.lto_emission_TAKEOFF,
+      Kern.lto_index_IDLE, Kern.lto_index_APPROACH, Kern.lto_index_CLIMB, Kern.lto_index_TAKEOFF, Kern.lto_fuel_IDLE,
+      Kern.lto_fuel_APPROACH, Kern.lto_fuel_CLIMB, Kern.lto_fuel_TAKEOFF]; try ring)
+
+/-- in the trajectory accounting mode the source zeroes the approach and climb-out modes (index, fuel and amount: those kilograms
+    are counted by the trajectory), and leaves idle and take-off alone; in the LTO mode every index is what went in -/
+theorem src_lto_mode_zeroing (A : String → ℝ) (i a c t : ℝ) :
+    (Kern.lto_index_APPROACH i a c t true = 0 ∧ Kern.lto_index_CLIMB i a c t true = 0 ∧
+     Kern.lto_fuel_APPROACH A i a c t true = 0 ∧ Kern.lto_fuel_CLIMB A i a c t true = 0 ∧
+     Kern.lto_emission_APPROACH A i a c t true = 0 ∧ Kern.lto_emission_CLIMB A i a c t true = 0 ∧
+     Kern.lto_index_IDLE i a c t true = i ∧ Kern.lto_index_TAKEOFF i a c t true = t) ∧
+    (Kern.lto_index_IDLE i a c t false = i ∧ Kern.lto_index_APPROACH i a c t false = a ∧
+     Kern.lto_index_CLIMB i a c t false = c ∧ Kern.lto_index_TAKEOFF i a c t false = t) := by
+  simp [Kern.lto_index_APPROACH, Kern.lto_index_CLIMB, Kern.lto_fuel_APPROACH, Kern.lto_fuel_CLIMB, Kern.lto_emission_APPROACH,
+    Kern.lto_emission_CLIMB, Kern.lto_index_IDLE, Kern.lto_index_TAKEOFF]
+
+/-- the LTO fuel burn the source reports is the sum of the four mode fuels it returns, and each mode fuel is the ICAO time in mode
+    (26, 4, 2.2, 0.7 minutes) times the fuel flow of that mode (or zero, see above) -/
+theorem src_lto_fuel_burn_is_sum (A : String → ℝ) (i a c t : ℝ) (b : Bool) :
+    Kern.lto_fuel_burn A i a c t b = Kern.lto_fuel_IDLE A i a c t b + Kern.lto_fuel_APPROACH A i a c t b +
+      Kern.lto_fuel_CLIMB A i a c t b + Kern.lto_fuel_TAKEOFF A i a c t b ∧
+    Kern.lto_fuel_IDLE A i a c t b = 1560 * A "lto_data.fuel_flow[ThrustMode.IDLE]" ∧
+    Kern.lto_fuel_TAKEOFF A i a c t b = 42 * A "lto_data.fuel_flow[ThrustMode.TAKEOFF]" := by
+  have hm : (Gen.MINUTES_TO_SECONDS : ℝ) = 60 := by simp [Gen.MINUTES_TO_SECONDS]
+  refine ⟨?_, ?_, ?_⟩ <;>
+    simp only [Kern.lto_fuel_burn, Kern.lto_fuel_IDLE, Kern.lto_fuel_APPROACH, Kern.lto_fuel_CLIMB, Kern.lto_fuel_TAKEOFF, hm,
+      lit_real] <;> (first | (norm_num; done) | (ring_nf; done) | (norm_num; ring_nf; done))
+
+/-- … and the LTO part of the source IS the model's (`modeZero`, `ltoFuel`, their mode-wise product, `TM.sum`) -/
+theorem src_lto_is_model (c : Cfg) (l : LtoIn ℝ) (ei : TM ℝ) :
+    (⟨Kern.lto_emission_IDLE (KernelBridge5.ltoEnv l) ei.idle ei.approach ei.climb ei.takeoff (!c.ltoMode),
+      Kern.lto_emission_APPROACH (KernelBridge5.ltoEnv l) ei.idle ei.approach ei.climb ei.takeoff (!c.ltoMode),
+      Kern.lto_emission_CLIMB (KernelBridge5.ltoEnv l) ei.idle ei.approach ei.climb ei.takeoff (!c.ltoMode),
+      Kern.lto_emission_TAKEOFF (KernelBridge5.ltoEnv l) ei.idle ei.approach ei.climb ei.takeoff (!c.ltoMode)⟩ : TM ℝ)
+        = TM.mul (modeZero c ei) (ltoFuel c l) ∧
+    Kern.lto_fuel_burn (KernelBridge5.ltoEnv l) ei.idle ei.approach ei.climb ei.takeoff (!c.ltoMode) = (ltoFuel c l).sum :=
+  ⟨(KernelBridge5.lto_part c l ei).2.2.1, (KernelBridge5.lto_part c l ei).2.2.2⟩
+
 end C01
